@@ -9,31 +9,45 @@
 (* implementation the memo belongs to one object (Scope = "object"). A memo  *)
 (* shared by all objects (Scope = "process") serves counts of one element as *)
 (* counts of another.                                                        *)
+(*                                                                           *)
+(* The module carries Apalache type annotations: besides the bounded TLC     *)
+(* runs (MC_CountCache) the invariant is shown inductive with Apalache for   *)
+(* an ARBITRARY true-count function (MC_CountCacheInd), i.e. for call        *)
+(* histories of any length.                                                  *)
 (***************************************************************************)
-EXTENDS Integers, Sequences, FiniteSets, TLC
+EXTENDS Integers, Sequences, FiniteSets
 
-CONSTANTS Tokens,      \* token texts
-          Atoms,       \* atom types a checker can be created for
-          Objs,        \* checker objects
-          Scope,       \* "object" | "process"
-          MaxCalls
-ASSUME Scope \in {"object", "process"}
+CONSTANTS
+    \* @type: Set(Str);
+    TokenIds,    \* token texts
+    \* @type: Set(Str);
+    Atoms,       \* atom types a checker can be created for
+    \* @type: Set(Str);
+    Objs,        \* checker objects
+    \* @type: Str;
+    Scope,       \* "object" | "process"
+    \* @type: <<Str, Str>> -> Int;
+    TC           \* true number of atoms of a type in a token
 
-\* true number of atoms of type a in token t: a token is modelled as the bag it denotes
-TrueCount(t, a) == IF a \in DOMAIN t THEN t[a] ELSE 0
-
-VARIABLES atomOf,   \* object -> atom type, or "none" before creation
-          memo,     \* memo owner -> (token -> count)
-          last,     \* the last answer given: [obj, token, atom, answer]
-          hist      \* call history (for replay into the implementation)
+VARIABLES
+    \* @type: Str -> Str;
+    atomOf,   \* object -> atom type, or "none" before creation
+    \* @type: Str -> (Str -> Int);
+    memo,     \* memo owner -> (token -> count), a partial function per owner
+    \* @type: {obj: Str, token: Str, atom: Str, answer: Int, truth: Int};
+    last,     \* the last answer given
+    \* @type: Seq({op: Str, obj: Str, atom: Str, token: Str});
+    hist      \* call history (for replay into the implementation); no action reads it
 vars == <<atomOf, memo, last, hist>>
 
 Owner(o) == IF Scope = "object" THEN o ELSE "process"
 Owners == IF Scope = "object" THEN Objs ELSE {"process"}
 NoAnswer == [obj |-> "none", token |-> "none", atom |-> "none", answer |-> 0, truth |-> 0]
+\* @type: Str -> Int;
+EmptyMemo == [x \in {} |-> 0]
 
 Init == /\ atomOf = [o \in Objs |-> "none"]
-        /\ memo = [w \in Owners |-> <<>>]
+        /\ memo = [w \in Owners |-> EmptyMemo]
         /\ last = NoAnswer
         /\ hist = <<>>
 
@@ -41,7 +55,7 @@ Init == /\ atomOf = [o \in Objs |-> "none"]
 Create(o, a) ==
     /\ atomOf[o] = "none"
     /\ atomOf' = [atomOf EXCEPT ![o] = a]
-    /\ memo' = IF Scope = "object" THEN [memo EXCEPT ![o] = <<>>] ELSE memo
+    /\ memo' = IF Scope = "object" THEN [memo EXCEPT ![o] = EmptyMemo] ELSE memo
     /\ hist' = Append(hist, [op |-> "create", obj |-> o, atom |-> a, token |-> "none"])
     /\ UNCHANGED last
 
@@ -51,21 +65,20 @@ Count(o, tk) ==
     /\ LET w == Owner(o)
            a == atomOf[o]
            hit == tk \in DOMAIN memo[w]
-           ans == IF hit THEN memo[w][tk] ELSE TrueCount(Tokens[tk], a)
+           ans == IF hit THEN memo[w][tk] ELSE TC[<<tk, a>>]
        IN /\ memo' = IF hit THEN memo
                      ELSE [memo EXCEPT ![w] = [k \in DOMAIN memo[w] \cup {tk} |-> IF k = tk THEN ans ELSE memo[w][k]]]
-          /\ last' = [obj |-> o, token |-> tk, atom |-> a, answer |-> ans, truth |-> TrueCount(Tokens[tk], a)]
+          /\ last' = [obj |-> o, token |-> tk, atom |-> a, answer |-> ans, truth |-> TC[<<tk, a>>]]
     /\ hist' = Append(hist, [op |-> "count", obj |-> o, atom |-> atomOf[o], token |-> tk])
     /\ UNCHANGED atomOf
 
-Next == /\ Len(hist) < MaxCalls
-        /\ \/ \E o \in Objs, a \in Atoms : Create(o, a)
-           \/ \E o \in Objs, tk \in DOMAIN Tokens : Count(o, tk)
+Next == \/ \E o \in Objs, a \in Atoms : Create(o, a)
+        \/ \E o \in Objs, tk \in TokenIds : Count(o, tk)
 Spec == Init /\ [][Next]_vars
 
 \* every answer is the true count for the atom type of the object that was asked
 AnswersAreTrue == last.answer = last.truth
 \* every memo entry is true for every object it can be served to
 MemoSound == \A o \in Objs : atomOf[o] # "none" =>
-               \A tk \in DOMAIN memo[Owner(o)] : memo[Owner(o)][tk] = TrueCount(Tokens[tk], atomOf[o])
+               \A tk \in DOMAIN memo[Owner(o)] : memo[Owner(o)][tk] = TC[<<tk, atomOf[o]>>]
 =============================================================================
